@@ -1160,7 +1160,13 @@ def random_chain_cfgs(rng, pool):
         if k == "lazy_stage" and "lazy_stage" in kinds:
             k = "stage"
         kinds.append(k)
-    return [random_paired_cfg(rng, k, forest, style, pk, p0) for k in kinds]
+    cfgs = [random_paired_cfg(rng, k, forest, style, pk, p0) for k in kinds]
+    used = set()           # callbacks / suspenders of different levels are distinct objects (the engine de-duplicates them)
+    for c in cfgs:
+        if c["kind"] in ("subs", "suspend"):
+            c["devs"] = [x for x in c["devs"] if x not in used]
+            used |= set(c["devs"])
+    return cfgs
 
 
 def make_world(cfgs):
@@ -1252,3 +1258,234 @@ def re_paired_traces(rng, n, pool):
                 pass
         res += finish_traces(traces)
     return res
+
+
+# --------------------------------------------------------------------------
+# C24 at plan level: rel_set / mvr / rel_list_scan / rel_scan / rel_grid_scan (spec/wrappers/RelMon.tla)
+# --------------------------------------------------------------------------
+class PlanMotorMixin:
+    """what the built-in scans additionally expect from a motor"""
+
+    @property
+    def hints(self):
+        return {"fields": [self.name]}
+
+
+class ScanLoc(PlanMotorMixin, LocMotor):
+    pass
+
+
+class ScanAttr(PlanMotorMixin, AttrMotor):
+    pass
+
+
+class ScanRead(PlanMotorMixin, ReadMotor):
+    pass
+
+
+SCAN_MOTOR = {"locate": ScanLoc, "attr": ScanAttr, "read": ScanRead}
+
+
+def rel_world(pk, p0):
+    cfg = {"kind": "relative_set", "pk": pk, "p0": list(p0) + [0], "style": "self", "devs": [], "all": True}
+    w = World(cfg, [0] * (len(p0) + 1), dev_class=SCAN_MOTOR[pk])
+    w.ended = False
+    w.fault_after = {}
+    w.det = w.devs[-1]           # the last device serves as detector (never moved)
+    return w
+
+
+def rel_plan(name, world, args, num=0):
+    """the bluesky plan for a RelMon case"""
+    import bluesky.plan_stubs as bps
+    import bluesky.plans as bp
+    m = world.devs
+    if name == "rel_set":
+        return bps.rel_set(m[0], args[0][0], wait=True)
+    if name == "mvr":
+        flat = []
+        for j, a in enumerate(args):
+            flat += [m[j], a[0]]
+        return bps.mvr(*flat)
+    if name == "rel_list_scan":
+        flat = []
+        for j, a in enumerate(args):
+            flat += [m[j], list(a)]
+        return bp.rel_list_scan([world.det], *flat)
+    if name == "rel_scan":
+        flat = []
+        for j, a in enumerate(args):
+            flat += [m[j], a[0], a[1]]
+        return bp.rel_scan([world.det], *flat, num=num)
+    if name == "rel_grid_scan":
+        flat = []
+        for j, a in enumerate(args):
+            flat += [m[j], a[0], a[1], a[2]]
+        return bp.rel_grid_scan([world.det], *flat)
+    raise ValueError(name)
+
+
+def in_reset(msg):
+    g = msg.kwargs.get("group")
+    return isinstance(g, str) and g.startswith("reset-")
+
+
+def lite_engine(plan, world, fault=None):
+    """a minimal engine (answers every message from the fake devices); fault = (k, kind): at the k-th message throw
+    Err / RequestStop / RequestAbort into the plan or close it.  Returns (set messages, ending, finfault, #messages,
+    index of the first cleanup message or None)."""
+    plan = iter(plan)
+    sets, n, first_reset, finfault = [], 0, None, False
+    try:
+        msg = plan.send(None) if hasattr(plan, "send") else next(plan)
+        while True:
+            n += 1
+            if in_reset(msg) and first_reset is None:
+                first_reset = n
+            if msg.command == "set":
+                sets.append([world.codec.dev_no(msg.obj), int(round(msg.args[0]))])
+            if fault is not None and fault[0] == n:
+                finfault = first_reset is not None
+                if fault[1] == "close":
+                    plan.close()
+                    return sets, "closed", finfault, n, first_reset
+                msg = plan.throw(make_exc(V(fault[1], 9)))
+                continue
+            try:
+                c = msg.command
+                if c == "set":
+                    r = msg.obj.set(*msg.args)
+                elif c == "locate":
+                    r = msg.obj.locate()
+                elif c == "read":
+                    r = msg.obj.read()
+                elif c == "trigger":
+                    r = msg.obj.trigger()
+                elif c in ("stage", "unstage"):
+                    r = [msg.obj]
+                elif c == "open_run":
+                    r = "uid"
+                else:
+                    r = None
+            except Exception as e:      # a device call failed: the engine throws it into the plan
+                finfault = finfault or first_reset is not None
+                msg = plan.throw(e)
+                continue
+            msg = plan.send(r)
+    except StopIteration:
+        return sets, "return", finfault, n, first_reset
+    except BaseException:  # noqa: B036
+        return sets, "raise", finfault, n, first_reset
+
+
+class PauseInjector:
+    """asks the RunEngine to pause right after the (k-1)-th message of the plan was processed"""
+
+    def __init__(self, gen, k):
+        self.gen, self.k, self.n, self.pending = iter(gen), k, 0, None
+
+    def __iter__(self):
+        return self
+
+    def __next__(self):
+        return self.send(None)
+
+    def send(self, v):
+        if self.pending is not None:
+            (held,), self.pending = self.pending, None
+            return self.gen.send(held)
+        self.n += 1
+        if self.n == self.k:
+            self.pending = (v,)
+            return Msg("pause", defer=False)
+        return self.gen.send(v)
+
+    def throw(self, typ, val=None, tb=None):
+        e = val if isinstance(val, BaseException) else (typ if isinstance(typ, BaseException) else typ())
+        self.pending = None
+        return self.gen.throw(e)
+
+    def close(self):
+        return self.gen.close()
+
+
+def fault_device(world, no, k):
+    """the k-th set() of motor `no` fails"""
+    dev = world.dev(no)
+    orig = dev.set
+    count = [0]
+
+    def failing(v):
+        count[0] += 1
+        if count[0] == k:
+            e = Err()
+            e.tag = 8
+            raise e
+        return orig(v)
+    dev.set = failing
+
+
+def rel_case(name, pk, p0, args, num, sets, ending, finfault, world, led):
+    nm = len(args)
+    return {"plan": name, "pk": pk, "args": [list(a) for a in args], "num": num, "init": list(p0[:nm]),
+            "sets": [s for s in sets if s[0] <= nm], "final": [world.pos[j + 1] for j in range(nm)],
+            "ending": ending, "finfault": bool(finfault), "led": led}
+
+
+def rel_lite_cases(name, pk, p0, args, num, kinds=("Err", "Stop", "Abort", "close")):
+    """fault-free run plus a fault of every kind at every message index"""
+    out = []
+    w = rel_world(pk, p0)
+    sets, ending, ff, n, _ = lite_engine(rel_plan(name, w, args, num), w)
+    out.append(rel_case(name, pk, p0, args, num, sets, ending, ff, w, False))
+    for k in range(1, n + 1):
+        for kind in kinds:
+            w = rel_world(pk, p0)
+            sets, ending, ff, _, _ = lite_engine(rel_plan(name, w, args, num), w, (k, kind))
+            out.append(rel_case(name, pk, p0, args, num, sets, ending, ff, w, False))
+    # a failing device instead of a thrown exception
+    nbody = sum(1 for s in out[0]["sets"]) - (len(args) if name.startswith("rel_") and name not in ("rel_set",) and "scan" in name else 0)
+    for k in range(1, max(nbody, 0) + 1):
+        w = rel_world(pk, p0)
+        fault_device(w, 1, k)
+        sets, ending, ff, _, _ = lite_engine(rel_plan(name, w, args, num), w)
+        out.append(rel_case(name, pk, p0, args, num, sets, ending, ff, w, False))
+    return out
+
+
+def rel_re_case(name, pk, p0, args, num, rng):
+    """one execution on a real RunEngine: success, a failing motor, or pause + abort / stop / halt inside the body"""
+    from bluesky.utils import RunEngineInterrupted
+    w0 = rel_world(pk, p0)
+    sets0, _, _, n0, first_reset = lite_engine(rel_plan(name, w0, args, num), w0)
+    body_msgs = (first_reset - 1) if first_reset else n0
+    w = rel_world(pk, p0)
+    plan = rel_plan(name, w, args, num)
+    mode = rng.choice(["ok", "device", "abort", "stop", "halt"])
+    ending = "return"
+    if mode == "device":
+        nbody_sets = len([s for s in sets0 if s[0] == 1]) - (1 if first_reset else 0)
+        if nbody_sets < 1:
+            mode = "ok"
+        else:
+            fault_device(w, 1, rng.randint(1, nbody_sets))
+    if mode in ("abort", "stop", "halt"):
+        if body_msgs < 2:
+            mode = "ok"
+        else:
+            plan = delegating(PauseInjector(plan, rng.randint(2, body_msgs)))
+    sets = []
+    RE = fresh_re()
+    RE.msg_hook = lambda m: sets.append([w.codec.dev_no(m.obj), int(round(m.args[0]))]) if m.command == "set" else None
+    with contextlib.redirect_stdout(io.StringIO()), contextlib.redirect_stderr(io.StringIO()):
+        try:
+            RE(plan)
+        except RunEngineInterrupted:
+            ending = "closed" if mode == "halt" else "raise"
+            try:
+                getattr(RE, mode)()
+            except Exception:
+                pass
+        except Exception:
+            ending = "raise"
+    return rel_case(name, pk, p0, args, num, sets, ending, False, w, True)
